@@ -117,7 +117,14 @@ def build_scenario(rng, flav, ctx, *, max_launch_dbm=5.0, n_jobs=None, span_kw=N
         tk.setdefault('per_degree', flav == 'mesh_pd')
         tk.setdefault('per_freq_loss', rng.random() < 0.3)
         tk.setdefault('lumped', rng.random() < 0.3)
-        b = W.build(rng, topo_kw=tk, span_kw=sk)
+        hook = None
+        if rng.random() < 0.35 and 'roadm_variety' not in tk:
+            # ROADM type with a detailed impairment profile in which every field takes a value
+            tk['roadm_variety'] = 'vf_impair_full'
+
+            def hook(r, ej):
+                ej['Roadm'].append(G.synthetic_roadm_variety(r))
+        b = W.build(rng, topo_kw=tk, span_kw=sk, eqpt_hook=hook)
     elif flav == 'p2p':
         # point-to-point line without ROADMs (as the shipped edfa_example_network.json)
         ej = G.eqpt_json()
@@ -188,11 +195,14 @@ def build_scenario(rng, flav, ctx, *, max_launch_dbm=5.0, n_jobs=None, span_kw=N
                 cl = G.gen_carriers(rng, f_lo=186.3e12, f_hi=190.2e12, n_max=20, n_min=1, max_dbm=max_launch_dbm)
                 cc = G.gen_carriers(rng, f_lo=191.0e12, f_hi=196.3e12, n_max=30, n_min=1, max_dbm=max_launch_dbm)
                 carriers = cl + cc
+                if b['tdesc'].get('three_bands'):
+                    carriers += G.gen_carriers(rng, f_lo=196.4e12, f_hi=199.6e12, n_max=20, n_min=1, max_dbm=max_launch_dbm)
                 req = W.make_request(equipment, a, z, initial_spectrum=G.carriers_to_initial_spectrum(carriers))
                 spec = {'carriers': len(carriers), 'first': carriers[:2]}
             else:
                 req, spec = _uniform_req(rng, equipment, a, z, max_launch_dbm=max_launch_dbm,
-                                         f_lo=G.pick(rng, [186.3e12, 191.3e12, 187e12]), f_hi=G.pick(rng, [196.1e12, 195e12]))
+                                         f_lo=G.pick(rng, [186.3e12, 191.3e12, 187e12]),
+                                         f_hi=G.pick(rng, [196.1e12, 195e12] + ([199.6e12, 199.0e12] if b['tdesc'].get('three_bands') else [])))
         elif flav == 'openroadm' or not use_carriers:
             req, spec = _uniform_req(rng, equipment, a, z, max_launch_dbm=max_launch_dbm, max_ch=max_ch)
         else:
@@ -245,19 +255,40 @@ def multibandify(tj, rng, varieties=MB_VARIETIES, only=None, members=None):
             cx.append({'from_node': uid, 'to_node': b})
 
 
-def build_multiband(rng, dispersion_variants=False, ej_hook=None):
-    """Generated C+L network: every ROADM designs for two bands, every junction carries a multiband amplifier."""
+S_BAND = {'f_min': 196.6e12, 'f_max': 199.4e12, 'spacing': 50e9}
+
+
+def build_multiband(rng, dispersion_variants=False, ej_hook=None, three=None):
+    """Generated C+L network: every ROADM designs for two bands, every junction carries a multiband amplifier.
+    In a third of the cases a third band (196.5-199.5 THz, amplifier model added to the library) is in use as well:
+    the multiband amplifiers then split into and merge three spectra."""
     ej = G.eqpt_json('eqpt_config_multiband.json')
+    three = rng.random() < 0.35 if three is None else three
+    if three:
+        ej['Edfa'].append({'type_variety': 'vf_low_gain_S', 'f_min': 196.5e12, 'f_max': 199.5e12, 'type_def': 'variable_gain',
+                           'gain_flatmax': 16, 'gain_min': 8, 'p_max': 21, 'nf_min': 7, 'nf_max': 11,
+                           'out_voa_auto': False, 'allowed_for_design': True})
+        ej['Edfa'].append({'type_variety': 'vf_low_gain_multiband3', 'type_def': 'multi_band',
+                           'amplifiers': ['std_low_gain_bis', 'std_low_gain_L', 'vf_low_gain_S'],
+                           'allowed_for_design': False})
+        ej['Edfa'].append({'type_variety': 'vf_low_gain_multiband3_bis', 'type_def': 'multi_band',
+                           'amplifiers': ['vf_low_gain_S', 'std_low_gain', 'std_low_gain_L'],
+                           'allowed_for_design': False})
     if ej_hook:
         ej_hook(ej)
     equipment = G.make_equipment(ej)
+    bands = deepcopy(MB_BANDS) + ([deepcopy(S_BAND)] if three else [])
 
     def rp(r, s):
-        return {'design_bands': deepcopy(MB_BANDS)}
+        return {'design_bands': deepcopy(bands)}
     tj, tdesc = G.gen_topology(rng, max_sites=4, max_spans=2, user_amps=False, fused=False, roadm_params=rp,
                                max_km=110, dispersion_variants=dispersion_variants)
+    tdesc['three_bands'] = three
     members = {e['type_variety']: e['amplifiers'] for e in ej['Edfa'] if e.get('type_def') == 'multi_band'}
-    multibandify(tj, rng, members=members)
+    if three:
+        multibandify(tj, rng, varieties=['vf_low_gain_multiband3', 'vf_low_gain_multiband3_bis'], members=members)
+    else:
+        multibandify(tj, rng, members=members)
     network = G.make_network(tj, equipment)
     G.reset_sim_params(None)
     G.design(equipment, network)
